@@ -93,15 +93,16 @@ type Val struct {
 
 // E1Options parametrises the environment.
 type E1Options struct {
-	Seed       int64
-	Powers     []int64  // consensus power per validator (tokens = power * 10^6)
-	ExtraStake []int64  // optional: additional raw tokens staked by validator i on top of power * 10^6 (boundary cases)
-	Chains     []string // remote chain reference ids, all activated
-	Authority  string   // skyway governance authority ("" like the repository's test env, or an address)
-	NoActive   bool     // leave chains inactive
-	Paloma     skywaytypes.PalomaKeeper
-	TokenFact  skywaytypes.TokenFactoryKeeper
-	ValAddrs   [][]byte // optional explicit operator address bytes per validator (C12 patterns)
+	PerChainKeys bool // validators register a different eth key on every chain but the first (default: one key for all chains)
+	Seed         int64
+	Powers       []int64  // consensus power per validator (tokens = power * 10^6)
+	ExtraStake   []int64  // optional: additional raw tokens staked by validator i on top of power * 10^6 (boundary cases)
+	Chains       []string // remote chain reference ids, all activated
+	Authority    string   // skyway governance authority ("" like the repository's test env, or an address)
+	NoActive     bool     // leave chains inactive
+	Paloma       skywaytypes.PalomaKeeper
+	TokenFact    skywaytypes.TokenFactoryKeeper
+	ValAddrs     [][]byte // optional explicit operator address bytes per validator (C12 patterns)
 	// NoChainInfo[i] lists chains on which validator i gets NO external chain info at set-up (C10).
 	NoChainInfo map[int][]string
 	// MaxValidators overrides the staking parameter (default 20).
@@ -325,7 +326,8 @@ func (e *E1) addValidators() {
 		var fees []treasurytypes.RelayerFeeSetting_FeeSetting
 		for _, c := range o.Chains {
 			if !skipChainInfo(o.NoChainInfo[v.Idx], c) {
-				infos = append(infos, &valsettypes.ExternalChainInfo{ChainType: "evm", ChainReferenceID: c, Address: v.EthAddr.Hex(), Pubkey: v.EthAddr.Bytes()})
+				ca := crypto.PubkeyToAddress(e.KeyFor(v, c).PublicKey)
+				infos = append(infos, &valsettypes.ExternalChainInfo{ChainType: "evm", ChainReferenceID: c, Address: ca.Hex(), Pubkey: ca.Bytes()})
 			}
 			fees = append(fees, treasurytypes.RelayerFeeSetting_FeeSetting{Multiplicator: math.LegacyMustNewDecFromStr("1.10"), ChainReferenceId: c})
 		}
@@ -335,6 +337,16 @@ func (e *E1) addValidators() {
 	_, err = e.Valset.TriggerSnapshotBuild(ctx)
 	must(err)
 	e.Metrix.UpdateUptime(ctx)
+}
+
+// KeyFor is the eth key validator v registers on chain c.
+func (e *E1) KeyFor(v Val, c string) *ecdsa.PrivateKey {
+	if !e.Opts.PerChainKeys || len(e.Opts.Chains) == 0 || c == e.Opts.Chains[0] {
+		return v.EthKey
+	}
+	k, err := crypto.ToECDSA(crypto.Keccak256([]byte(fmt.Sprintf("verif-val-eth-%d-%d-%s", e.Opts.Seed, v.Idx, c))))
+	must(err)
+	return k
 }
 
 func skipChainInfo(skip []string, c string) bool {
